@@ -1,10 +1,205 @@
-/- driver for C18 : to be filled in (stub keeps Main.lean compiling) -/
+/- driver for C18 (moment-imposing transforms, statistical definitions, norms and metrics):
+   Float instantiation of Model/Measures -/
 import MysticVerif.Basic.Proto
+import MysticVerif.Model.Dsl
+import MysticVerif.Model.Measures
 
 namespace MysticVerif.DrvC18
-open MysticVerif
+open MysticVerif MysticVerif.Meas MysticVerif.Dsl
+
+instance : NatCast Float := ⟨Float.ofNat⟩
+
+/-- `t ** (1./p)`: exact for p = 1, `sqrt` for p = 2 (numpy's array fast path), libm `pow` otherwise -/
+def rootF (p : Nat) (t : Float) : Float :=
+  if p = 1 then t else if p = 2 then Float.sqrt t else Float.pow t (1.0 / Float.ofNat p)
+
+def CF : Consts Float := { inf := 1.0 / 0.0, nan := 0.0 / 0.0, sqrt := Float.sqrt, root := rootF }
+
+def optFloats? (v : Val) : Option (Option (List Float)) :=
+  match v with
+  | .sym "none" => some none
+  | _ => (v.asFloats?).map some
+
+def parsePts (v : Val) : Option (List (List Float)) := do
+  let l ← v.asList?
+  l.mapM Val.asFloats?
+
+def parsePairs (v : Val) : Option (List (Int × Int)) := do
+  let l ← v.asList?
+  l.mapM fun
+    | .list [.int i, .int j] => some (i, j)
+    | _ => none
+
+def evalF (e : Expr) (p : List Float) : Float := (e.eval p).getD (0.0 / 0.0)
+
+def showGroups (g : Groups) : String :=
+  pL (g.map fun kv => "(" ++ toString kv.1 ++ " " ++ pIs kv.2 ++ ")")
+
+/-- all normalised indices of the pairs inside `[0, n)` -/
+def pairsInRange (n : Nat) (pairs : List (Int × Int)) : Bool :=
+  pairs.all fun p =>
+    let i := normIdx n p.1; let j := normIdx n p.2
+    decide (0 ≤ i) && decide (i < n) && decide (0 ≤ j) && decide (j < n)
+
+def distOf (kind : String) (p : Nat) (x y : List Float) : Option Float :=
+  match kind with
+  | "chebyshev" => if x.isEmpty || y.isEmpty then none else some (chebyshev x y)
+  | "hamming" => some (hamming x y)
+  | "minkowski" => some (minkowski CF p x y)
+  | "euclidean" => some (euclidean CF x y)
+  | "manhattan" => some (manhattan CF x y)
+  | _ => none
 
 def handle : Handler
+  | .sym "mean" :: args => Id.run do
+    let some xs := (kw? args "xs").bind Val.asFloats? | return "bad-op"
+    let some ws := (kw? args "ws").bind optFloats? | return "bad-op"
+    let some tol := (kw? args "tol").bind Val.asFloat? | return "bad-op"
+    if ws.isNone && xs.isEmpty then return "err zerodiv"
+    return s!"ok v={pF (mean CF xs ws tol)}"
+  | .sym "moment" :: args => Id.run do
+    let some xs := (kw? args "xs").bind Val.asFloats? | return "bad-op"
+    let some ws := (kw? args "ws").bind optFloats? | return "bad-op"
+    let some tol := (kw? args "tol").bind Val.asFloat? | return "bad-op"
+    let some order := (kw? args "order").bind Val.asNat? | return "bad-op"
+    if order ≥ 2 && ws.isNone && xs.isEmpty then return "err zerodiv"
+    return s!"ok v={pF (moment CF xs ws order tol)}"
+  | .sym "variance" :: args => Id.run do
+    let some xs := (kw? args "xs").bind Val.asFloats? | return "bad-op"
+    let some ws := (kw? args "ws").bind optFloats? | return "bad-op"
+    if ws.isNone && xs.isEmpty then return "err zerodiv"
+    return s!"ok v={pF (variance CF xs ws)} sd={pF (std CF xs ws)}"
+  | .sym "spread" :: args => Id.run do
+    let some xs := (kw? args "xs").bind Val.asFloats? | return "bad-op"
+    if xs.isEmpty then return "err value"
+    return s!"ok v={pF (spread xs)}"
+  | .sym "support" :: args => Id.run do
+    let some ws := (kw? args "ws").bind Val.asFloats? | return "bad-op"
+    let some tol := (kw? args "tol").bind Val.asFloat? | return "bad-op"
+    let some pts := (kw? args "pts").bind parsePts | return "bad-op"
+    if pts.length < ws.length then return "bad-op"
+    return s!"ok idx={pNs (supportIndex ws tol)} pts={pFss (support pts ws tol)}"
+  | .sym "ess" :: args => Id.run do
+    let some kind := (kw? args "kind").bind Val.asSym? | return "bad-op"
+    let some e := (kw? args "f").bind parseExpr | return "bad-op"
+    let some pts := (kw? args "pts").bind parsePts | return "bad-op"
+    let some ws := (kw? args "ws").bind optFloats? | return "bad-op"
+    let some tol := (kw? args "tol").bind Val.asFloat? | return "bad-op"
+    let r := match kind with
+      | "max" => essMaximum (evalF e) pts ws tol
+      | "min" => essMinimum (evalF e) pts ws tol
+      | _ => essPtp (evalF e) pts ws tol
+    match r with
+    | some v => return s!"ok v={pF v}"
+    | none => return "err value"
+  | .sym "expectation" :: args => Id.run do
+    let some e := (kw? args "f").bind parseExpr | return "bad-op"
+    let some pts := (kw? args "pts").bind parsePts | return "bad-op"
+    let some ws := (kw? args "ws").bind optFloats? | return "bad-op"
+    let some tol := (kw? args "tol").bind Val.asFloat? | return "bad-op"
+    if ws.isNone && pts.isEmpty then return "err zerodiv"
+    return s!"ok v={pF (expectation CF (evalF e) pts ws tol)}"
+  | .sym "expected_moment" :: args => Id.run do
+    let some e := (kw? args "f").bind parseExpr | return "bad-op"
+    let some pts := (kw? args "pts").bind parsePts | return "bad-op"
+    let some ws := (kw? args "ws").bind optFloats? | return "bad-op"
+    let some tol := (kw? args "tol").bind Val.asFloat? | return "bad-op"
+    let some order := (kw? args "order").bind Val.asNat? | return "bad-op"
+    if order ≥ 2 && ws.isNone && pts.isEmpty then return "err zerodiv"
+    return s!"ok v={pF (expectedMoment CF (evalF e) pts ws order tol)}"
+  | .sym "impose" :: args => Id.run do
+    let some kind := (kw? args "kind").bind Val.asSym? | return "bad-op"
+    let some t := (kw? args "t").bind Val.asFloat? | return "bad-op"
+    let some xs := (kw? args "xs").bind Val.asFloats? | return "bad-op"
+    let some ws := (kw? args "ws").bind optFloats? | return "bad-op"
+    if ws.isNone && xs.isEmpty then return "err zerodiv"
+    match kind with
+    | "mean" => return s!"ok y={pFs (imposeMean CF t xs ws)}"
+    | "variance" => return s!"ok y={pFs (imposeVariance CF t xs ws)}"
+    | "std" => return s!"ok y={pFs (imposeStd CF t xs ws)}"
+    | "spread" => if xs.isEmpty then return "err value" else return s!"ok y={pFs (imposeSpread CF t xs ws)}"
+    | _ => return "bad-op"
+  | .sym "normalize" :: args => Id.run do
+    let some ws := (kw? args "ws").bind Val.asFloats? | return "bad-op"
+    let some zsum := (kw? args "zsum").bind Val.asBool? | return "bad-op"
+    match kw? args "lp" with
+    | some v =>
+      let some p := v.asNat? | return "bad-op"
+      return s!"ok w={pFs (normalizeL CF ws p zsum)}"
+    | none =>
+      let some mass := (kw? args "mass").bind Val.asFloat? | return "bad-op"
+      let some zmass := (kw? args "zmass").bind Val.asFloat? | return "bad-op"
+      return s!"ok w={pFs (normalize CF ws mass zsum zmass)}"
+  | .sym "weight_norm" :: args => Id.run do
+    let some xs := (kw? args "xs").bind Val.asFloats? | return "bad-op"
+    let some ws := (kw? args "ws").bind Val.asFloats? | return "bad-op"
+    let some mass := (kw? args "mass").bind Val.asFloat? | return "bad-op"
+    let r := imposeWeightNorm CF xs ws mass
+    return s!"ok y={pFs r.1} w={pFs r.2}"
+  | .sym "support_surgery" :: args => Id.run do
+    let some kind := (kw? args "kind").bind Val.asSym? | return "bad-op"
+    let some xs := (kw? args "xs").bind Val.asFloats? | return "bad-op"
+    let some ws := (kw? args "ws").bind Val.asFloats? | return "bad-op"
+    let some index := (kw? args "index").bind Val.asInts? | return "bad-op"
+    let nullable := ((kw? args "nullable").bind Val.asBool?).getD true
+    let r := match kind with
+      | "support" => imposeSupport CF index xs ws
+      | _ => imposeUnweighted CF index xs ws nullable
+    return s!"ok y={pFs r.1} w={pFs r.2}"
+  | .sym "connected" :: args => Id.run do
+    let some pairs := (kw? args "pairs").bind parsePairs | return "bad-op"
+    return s!"ok groups={showGroups (connected pairs)}"
+  | .sym "collapse" :: args => Id.run do
+    let some xs := (kw? args "xs").bind Val.asFloats? | return "bad-op"
+    let some ws := (kw? args "ws").bind Val.asFloats? | return "bad-op"
+    let some pairs := (kw? args "pairs").bind parsePairs | return "bad-op"
+    if !pairsInRange ws.length pairs || xs.length != ws.length then return "err index"
+    let r := imposeCollapse CF pairs xs ws
+    return s!"ok y={pFs r.1} w={pFs r.2} groups={showGroups (connected (pairs.map fun p => (normIdx ws.length p.1, normIdx ws.length p.2)))}"
+  | .sym "lnorm" :: args => Id.run do
+    let some ws := (kw? args "ws").bind Val.asFloats? | return "bad-op"
+    match kw? args "p" with
+    | some (.sym "inf") => if ws.isEmpty then return "err value" else return s!"ok v={pF (lnormInf ws)}"
+    | some v =>
+      let some p := v.asNat? | return "bad-op"
+      return s!"ok v={pF (lnorm CF ws p)}"
+    | none => return "bad-op"
+  | .sym "dist" :: args => Id.run do
+    let some kind := (kw? args "kind").bind Val.asSym? | return "bad-op"
+    let some p := (kw? args "p").bind Val.asNat? | return "bad-op"
+    let some x := (kw? args "x").bind parsePts | return "bad-op"
+    let some y := (kw? args "y").bind parsePts | return "bad-op"
+    let some pair := (kw? args "pair").bind Val.asBool? | return "bad-op"
+    if pair then
+      if x.length != y.length then return "bad-op"
+      let some r := (List.zipWith (distOf kind p) x y).mapM id | return "err value"
+      return s!"ok d={pFs r}"
+    else
+      let some r := (x.map fun a => (y.map fun b => distOf kind p a b).mapM id).mapM id | return "err value"
+      return s!"ok d={pFss r}"
+  | .sym "tolerance" :: args => Id.run do
+    let some x := (kw? args "x").bind Val.asFloat? | return "bad-op"
+    let some tol := (kw? args "tol").bind Val.asFloat? | return "bad-op"
+    let some rel := (kw? args "rel").bind Val.asFloat? | return "bad-op"
+    return s!"ok v={pF (tolerance x tol rel)}"
+  | .sym "almost" :: args => Id.run do
+    let some x := (kw? args "x").bind Val.asFloats? | return "bad-op"
+    let some y := (kw? args "y").bind Val.asFloats? | return "bad-op"
+    let some tol := (kw? args "tol").bind Val.asFloat? | return "bad-op"
+    let some rel := (kw? args "rel").bind Val.asFloat? | return "bad-op"
+    if x.length != y.length then return "bad-op"
+    return s!"ok b={pB (almostEqual x y tol rel)}"
+  | .sym "robust" :: args => Id.run do
+    let some kind := (kw? args "kind").bind Val.asSym? | return "bad-op"
+    let some xs := (kw? args "xs").bind Val.asFloats? | return "bad-op"
+    let some ws := (kw? args "ws").bind optFloats? | return "bad-op"
+    let some t := (kw? args "t").bind Val.asFloat? | return "bad-op"
+    if xs.isEmpty then return "bad-op"
+    match kind with
+    | "median" => return s!"ok v={pF (median CF xs ws)} mad={pF (mad CF xs ws)}"
+    | "impose_median" => return s!"ok y={pFs (imposeMedian CF t xs ws)}"
+    | "impose_mad" => return s!"ok y={pFs (imposeMad CF t xs ws)}"
+    | _ => return "bad-op"
   | _ => "bad-op"
 
 end MysticVerif.DrvC18
